@@ -186,7 +186,7 @@ def run(chk):
     chk.compare("all-possibilities-substvars", ac, ai, am, nontrivial=lambda c, r: r.startswith("ok [ "))
     # 5. SatisfiedBy
     pool = [b"1.0", b"1.00", b"1.0-1", b"1.0-0", b"1.0~rc1", b"1.0+b1", b"2:0.1", b"1:0", b"0", b"0.9", b"1.0a", b"1.1", b"10", b"9", b"1.0-1~", b"1.0.0"]
-    bad = [b"", b"abc", b"1 0", b"1:", b"-1:1", b":1", b"1.0_1"]
+    bad = [b"", b"abc", b"1 0", b"1:", b"-1:1", b":1", b"1.0_1", b"1.0\xc3\xa9", b"3.\xd9\xa3", b"1\xef\xbc\x91", b"1.0-\xce\xb1", b"0\xc2\xb2"]
     opsl = [b"<<", b"<=", b"=", b">=", b">>", b"<", b">", b"==", b"!=", b"", b"=>"]
     cases, want = [], []
     vs = chk.run_impl([("vparse", [p]) for p in pool])
